@@ -49,9 +49,10 @@ CLAIMS = {
             "loops over pointer-keyed / interned_string-keyed unordered containers and pointer-ordered sets never "
             "emit and only fill associative containers or vectors that are sorted afterwards; no sort comparator "
             "orders by address; R-TIEBREAK: comparators over decl_base / type_base do not fall back on a bare name "
-            "(a type and its typedef would tie and let the hash order through)",
-            "loop bodies calling arbitrary side-effecting functions are not classified; uninitialised memory and "
-            "elfutils nondeterminism are not decided",
+            "(a type and its typedef would tie and let the hash order through); R-MEMBERINIT: every scalar data member "
+            "is initialised by every user-provided constructor reachable from a tool's main",
+            "loop bodies calling arbitrary side-effecting functions are not classified; uninitialised locals / heap "
+            "buffers and elfutils nondeterminism are not decided",
             "§3 R-UNORD, R-PTRCMP; §4 C14"),
     "C31": ("whole-program call-graph reachability (CHA) from every task perform() / completion notifier + effect "
             "classification of every reference to a mutable variable of static storage duration, of writes to the "
